@@ -61,6 +61,7 @@ type Work struct {
 	Implicit   int    `json:"implicit,omitempty"`    // >0: a last hop written as the implicit relay `dst <- src` (one item of src is forwarded); 2: dst is a chan interface
 	StructChan bool   `json:"struct_chan,omitempty"` // the stage channels are the channel fields of struct values made one after the other from one struct type (all unbuffered)
 	LateBind   bool   `json:"late_bind,omitempty"`   // a last forwarding goroutine is started from a function scope that is still empty; the channel it writes to is bound there afterwards
+	BadAt      int    `json:"bad_at,omitempty"`      // ConsForm 4 (checked consumer): the stage function fails inside Go for the BadAt-th item it is handed
 	Shadow     bool   `json:"shadow,omitempty"`      // outer variables named like the for-in loop variables exist (a for-in variable is a fresh binding per loop)
 }
 
@@ -188,6 +189,16 @@ func (Prop) Gen(seed int64, tier string) *harness.Case {
 		w.ConsForm %= 2
 		w.WorkForm %= 2
 	}
+	if !w.Nils && !w.switchConsumer() && w.HostDrain != 1 && r.Intn(6) == 0 {
+		// the final consumer hands every received item to a stage function, `stg(<-ch)`, which fails inside Go for
+		// one of them: that item's failure is caught, every other item is delivered exactly once
+		w.ConsForm = 4
+		tot := 0
+		for _, n := range w.Items {
+			tot += n
+		}
+		w.BadAt = 1 + r.Intn(tot)
+	}
 	wb, _ := json.Marshal(w)
 	density := []int{0, 5, 20, 50, 80}[r.Intn(5)]
 	total := 0
@@ -209,6 +220,26 @@ func (Prop) Gen(seed int64, tier string) *harness.Case {
 }
 
 const nSpawn = 11
+
+// defineIsBad binds the fault plan of the checked consumer: isbad(v) is true for the BadAt-th item it is shown,
+// and that item is recorded (it is the one the stage fails on: owed to nobody).
+func defineIsBad(e *env.Env, w *Work, mu *sync.Mutex, probes map[string]interface{}, yield func()) {
+	calls := 0
+	e.Define("isbad", func(v interface{}) bool {
+		yield()
+		mu.Lock()
+		defer mu.Unlock()
+		if v == nil {
+			return false
+		}
+		calls++
+		if calls == w.BadAt {
+			probes["bad-item"] = v
+			return true
+		}
+		return false
+	})
+}
 
 // expectedFromSent: per producer, the values the final consumer must see, derived from the recorded item() calls.
 func expectedFromSent(w *Work, probes map[string]interface{}) [][]interface{} {
@@ -608,6 +639,11 @@ func Render(w *Work) string {
 		}
 		fmt.Fprintf(&b, "n1 = 0\nn2 = 0\nn3 = 0\nfor kk = 0; kk < %d; kk++ {\nswitch <-%s {\ncase %s:\nn1++\ncase %s:\nn2++\ndefault:\nn3++\n}\n}\nprobe(\"classes\", [n1, n2, n3])\nprobe(\"after-count\", <-%s)\n",
 			tot, last, strings.Join(c1, ", "), strings.Join(c2, ", "), last)
+	} else if w.ConsForm == 4 && !w.Nils {
+		// a fault inside a stage: the callee of a direct call fails in Go (a channel of an impossible size), the
+		// failure is caught, and the argument expression `<-ch` has been evaluated exactly once all the same
+		b.WriteString("func stg(v) {\nif isbad(v) { make(chan int64, 4611686018427387904) }\nreturn v\n}\n")
+		b.WriteString("fin = false\nfor !fin {\ntry {\nvm = stg((<-" + last + "))\nif vm == nil { fin = true } else {\nemit(vm)\nout += vm\n}\n} catch se {\nprobe(\"stage-fault\", 1)\n}\n}\n")
 	} else if w.Nils {
 		b.WriteString(consumerLoop(w.ConsForm, last, "vm", "emit(vm)") + "\n")
 	} else {
@@ -829,6 +865,7 @@ func (Prop) Run(t *testing.T, c *harness.Case, verbose bool) *harness.Result {
 			return v
 		})
 		e.Define("fwd", fwdValue)
+		defineIsBad(e, &w, &mu, probes, func() { simrt.Yield("probe") })
 		e.Define("args", func(xs ...interface{}) {
 			simrt.Yield("probe")
 			mu.Lock()
@@ -913,6 +950,9 @@ func (Prop) Run(t *testing.T, c *harness.Case, verbose bool) *harness.Result {
 	if w.Epilogue && w.HostDrain != 1 {
 		res.Counters["epilogue_checked"]++
 	}
+	if _, ok := probes["bad-item"]; ok {
+		res.Counters["fault_fired_stage_fails_inside_go"]++
+	}
 	if w.HostDrain != 0 {
 		res.Counters[fmt.Sprintf("pipeline_outlives_run_mode%d", w.HostDrain)]++
 	}
@@ -952,6 +992,22 @@ func judge(wp *Work, got []interface{}, probes map[string]interface{}, mainVal i
 		// through the stages' conversion and transformation - not what a model of the script's loops
 		// predicts: how many times a loop runs is another property's business.
 		exp := expectedFromSent(&w, probes)
+		if bad, ok := probes["bad-item"]; ok && w.ConsForm == 4 {
+			// the item the stage failed on is owed to nobody; every other item is
+			if probes["stage-fault"] == nil {
+				return fail("script-error", fmt.Sprintf("the stage function failed inside Go for item %#v and the try around the call did not see an error (delivered: %s)", bad, order))
+			}
+			done := false
+			for p := range exp {
+				for i, v := range exp[p] {
+					if v == bad && !done {
+						exp[p] = append(append([]interface{}{}, exp[p][:i]...), exp[p][i+1:]...)
+						done = true
+						break
+					}
+				}
+			}
+		}
 		if w.unordered() {
 			// fan-out: order across workers is not defined; every item exactly once, exact type
 			want := map[interface{}]int{}
@@ -1084,6 +1140,7 @@ func RunReal(c *harness.Case) (string, string) {
 		return v
 	})
 	e.Define("fwd", fwdValue)
+	defineIsBad(e, &w, &mu, probes, func() {})
 	e.Define("args", func(xs ...interface{}) {
 		mu.Lock()
 		if id, ok := xs[0].(int64); ok {
